@@ -116,6 +116,22 @@ func vpC18_O2() {
 
 func init() {
 	vpHarnesses["vpC18_O3"] = vpC18_O3
+	vpHarnesses["vpC18_O2b"] = vpC18_O2b
+}
+
+// C18-O2b: the same statement as O2 by case split over concrete small candidates (so that
+// primality is decided, not uninterpreted, and a counterexample replays natively): p and q
+// range over safe primes, primes with composite half, composites with prime half and
+// composites with composite half; p' and q' are the halves or off by one.
+func vpC18_O2b() {
+	cands := []int64{7, 11, 23, 47, 13, 37, 15, 35, 9, 21, 5, 3}
+	p, q := cands[vpChoose("pc", len(cands))], cands[vpChoose("qc", len(cands))]
+	pp, qp := (p-1)/2+int64(vpChoose("ppOff", 2)), (q-1)/2+int64(vpChoose("qpOff", 2))
+	sk := &PrivateKey{P: big.NewInt(p), Q: big.NewInt(q), PPrime: big.NewInt(pp), QPrime: big.NewInt(qp)}
+	err := sk.Validate()
+	safe := func(x int64) bool { return x > 2 && big.NewInt(x).ProbablyPrime(20) && big.NewInt((x-1)/2).ProbablyPrime(20) }
+	consistent := pp == (p-1)/2 && qp == (q-1)/2
+	vpAssert("Validate accepts exactly consistent safe-prime keys (concrete candidates)", (err == nil) == (consistent && safe(p) && safe(q)))
 }
 
 // vpxKeyXML builds a public key document whose modulus has exactly nbits bits
